@@ -34,8 +34,9 @@ ALPHA = {
     'neg': (-1, 0, 1),
     'nan': (0.5, NAN, -1.5),
     'str': ('b', 'a', 'ab'),
+    'big': (2 ** 53 + 2, 2 ** 53, 2 ** 53 + 1),      # distinct as int64, tied if ever compared as float64
 }
-DT = {'int': 'int64', 'neg': 'int64', 'nan': 'float64', 'str': '<U2'}
+DT = {'int': 'int64', 'neg': 'int64', 'nan': 'float64', 'str': '<U2', 'big': 'int64'}
 
 
 def k1(v):
@@ -62,6 +63,8 @@ KEYFUNCS = (None, 'neg_array', 'neg_container')
 def cases(tier):
     sc = scope(tier)
     for alpha in ALPHA:
+        if alpha == 'big':
+            continue   # only meaningful next to a float key column (frame_values2)
         for n in range(0, sc['n1'] + 1):
             yield ('series_values', alpha, n)
             yield ('index_sort', alpha, n)
@@ -73,7 +76,7 @@ def cases(tier):
             for li in range(3):
                 for sh in shards(3 ** n):
                     yield ('frame_values1', a1, n, li, sh)
-    for a1, a2 in (('int', 'int'), ('int', 'str'), ('nan', 'int'), ('str', 'neg')):
+    for a1, a2 in (('int', 'int'), ('int', 'str'), ('nan', 'int'), ('str', 'neg'), ('nan', 'str'), ('big', 'nan')):
         for n in range(1, sc['n2'] + 1):
             for li in range(3):
                 for axis in (1, 0):
@@ -164,6 +167,19 @@ def run_series_values(case, ctx):
                     continue
                 order = ref_order([(pf(v),) for v in vec], asc)
                 check_series(ctx, 'series.sort_values', res, [(labels[i], vec[i]) for i in order], 'nm', DT[alpha], info)
+                # the same values under the default integer index: after sorting, every label must still *look up* its own value
+                if n and kf is None:
+                    ctx.transition()
+                    sa = sf.Series(arr(vec, DT[alpha]), name='nm')
+                    ra = sa.sort_values(ascending=asc)
+                    if ra.index.values.tolist() != order:
+                        ctx.violation('series.sort_values|auto-index|order', **info, got=ra.index.values.tolist(), expected=order)
+                    else:
+                        for lab in range(n):
+                            g = ra.loc[lab]
+                            if norm(g) != norm(vec[lab]):
+                                ctx.violation('series.sort_values|auto-index|label-lookup-after-sort', **info, label=lab, got=norm(g), expected=norm(vec[lab]))
+                                break
         ctx.outcome('series_values')
     ctx.sample({'family': 'series_values', 'alphabet': alpha, 'n': n}, limit=1)
 
@@ -272,7 +288,7 @@ def run_frame_values(case, ctx):
         keys = [tuple(vecs[k][i] for k in range(nk)) for i in range(n)]
         label = names[0] if nk == 1 else names[:nk]
         numeric = all(a != 'str' for a in alphas)
-        kfs = KEYFUNCS if (numeric and axis == 1) else (None,)
+        kfs = KEYFUNCS if (numeric and axis == 1 and 'big' not in alphas) else (None,)   # (a key function reading .values would itself merge big ints with floats)
         target = f
         if axis == 0:
             # sort columns by row values: transpose the data (rows become columns); only key rows participate
